@@ -289,7 +289,7 @@ def gen_cases(seed, chunk, n, tier):
 
 
 def run(ctx):
-    n = 600 if ctx.tier == "quick" else 12000
+    n = 3000 if ctx.tier == "quick" else 20000
     stream.run_stream(ctx, "frame", "harness.props.c14", "gen_cases", n, per_chunk=40,
                       canon_kw=dict(drop_zero=True))
 
